@@ -54,6 +54,7 @@ type Contract struct {
 	Inline    bool   // always inline at call sites even though it has a contract (contract still verified)
 	NoInline  bool
 	Props     []string // properties this function's obligations serve (optional)
+	Ghost      string  // `ghosttrace p`: calls through the function-typed parameter p append their argument to the ghost sequence `trace` and answer vis(trace, arg)
 	FunctionOf string  // `function f`: the spec function f names the value this (deterministic) function returns
 	File      string
 	Line      int
@@ -67,7 +68,7 @@ type ContractSet struct {
 
 var clauseKeywords = map[string]bool{"func": true, "use": true, "requires": true, "ensures": true,
 	"assigns": true, "decreases": true, "loop": true, "invariant": true, "trusted": true,
-	"inline": true, "noinline": true, "unroll": true, "props": true, "function": true}
+	"inline": true, "noinline": true, "unroll": true, "props": true, "function": true, "ghosttrace": true}
 
 func splitLabel(s string) (string, string) {
 	s = strings.TrimSpace(s)
@@ -142,6 +143,8 @@ func (cs *ContractSet) loadFile(path string) error {
 			cur.Uses = append(cur.Uses, strings.Fields(rest)...)
 		case "props":
 			cur.Props = append(cur.Props, strings.Fields(rest)...)
+		case "ghosttrace":
+			cur.Ghost = rest
 		case "function":
 			cur.FunctionOf = rest
 		case "trusted":
